@@ -265,21 +265,46 @@ def main():
             raise mc.Unsupported('expected one loop over Policy::methods that copies the slots and strides, found %d' % len(fill))
         fb = nonempty(fill[0][1][3][1])
         mv = fill[0][1][1]
-        text = repr(fb)
-        want_bits = [
-            repr(('expr', ('assign', '=', ('un', '*', ('post', '++', ('id', 'methods_iter'))), ('un', '&', ('id', mv))))),
-            repr(('bin', '-', ('bin', '*', ('num', 2), ('call', ('member', ('id', mv), 'arity', False), [])), ('num', 1))),
-            repr(('assign', '=', ('un', '*', ('post', '++', ('id', 'method_defs_iter'))), ('id', 'specs'))),
-            repr(('lambda', [], ['spec'], ('block', [('return', ('cast', 'c', 'uintptr_t', ('member', ('id', 'spec'), 'pf', False)))]))),
-        ]
-        for w in want_bits:
-            if w not in text:
-                raise mc.Unsupported('the loop that fills methods[] / method_defs[] changed; missing: ' + w[:160])
-        amb = repr(('expr', ('assign', '=', ('un', '*', ('post', '++', ('id', 'specs'))), ('cast', 'c', 'uintptr_t', ('member', ('id', mv), 'ambiguous', False)))))
-        nim = repr(('expr', ('assign', '=', ('un', '*', ('post', '++', ('id', 'specs'))), ('cast', 'c', 'uintptr_t', ('member', ('id', mv), 'not_implemented', False)))))
-        tr = text.find("('id', 'std::transform')")
-        if not (0 <= tr < text.find(amb) < text.find(nim)):
-            raise mc.Unsupported('method_defs[mi] is no longer <the definitions, ambiguous, not_implemented> in that order')
+        # statement by statement: what may appear, and the order of the stores through `specs`
+        order = []
+        seen = set()
+        spec_var = None
+        for st in fb:
+            if st == ('expr', ('assign', '=', ('un', '*', ('post', '++', ('id', 'methods_iter'))), ('un', '&', ('id', mv)))):
+                seen.add('methods'); continue
+            if st[0] == 'rangefor' and st[2] == ('member', ('id', mv), 'specs', False) and nonempty(st[3][1] if st[3][0] == 'block' else [st[3]]) == []:
+                continue                                                   # the loop that only traces the definitions
+            if st[0] == 'decl' and len(st[2]) == 1 and st[2][0][1] == ('bin', '-', ('bin', '*', ('num', 2), ('call', ('member', ('id', mv), 'arity', False), [])), ('num', 1)):
+                count = st[2][0][0]; seen.add('count'); continue
+            if 'count' in seen and st == ('expr', ('call', ('id', 'std::copy_n'), [('id', 'packed_slots_iter'), ('id', count), ('member', ('id', mv), 'slots_strides_ptr', False)])):
+                seen.add('copy'); continue
+            if 'count' in seen and st == ('expr', ('assign', '+=', ('id', 'packed_slots_iter'), ('id', count))):
+                seen.add('advance'); continue
+            if (st[0] == 'decl' and len(st[2]) == 1 and st[2][0][0] == 'specs' and st[2][0][1] is not None and st[2][0][1][0] == 'cast'
+                    and st[2][0][1][3] == ('call', ('id', 'alloca'), [('bin', '*', ('bin', '+', ('call', ('member', ('member', ('id', mv), 'specs', False), 'size', False), []), ('num', 2)), ('id', 'pointer_size'))])):
+                seen.add('alloca'); continue
+            if st == ('expr', ('assign', '=', ('un', '*', ('post', '++', ('id', 'method_defs_iter'))), ('id', 'specs'))) and 'alloca' in seen and not order:
+                seen.add('defs_ptr'); continue
+            tr = ('expr', ('assign', '=', ('id', 'specs'), ('call', ('id', 'std::transform'),
+                  [('call', ('member', ('member', ('id', mv), 'specs', False), 'begin', False), []), ('call', ('member', ('member', ('id', mv), 'specs', False), 'end', False), []), ('id', 'specs'),
+                   ('lambda', [], ['spec'], ('block', [('return', ('cast', 'c', 'uintptr_t', ('member', ('id', 'spec'), 'pf', False)))]))])))
+            if st == tr and 'defs_ptr' in seen:
+                order.append('defs'); continue
+            if (st[0] == 'rangefor' and isinstance(st[1], str) and st[2] == ('member', ('id', mv), 'specs', False) and 'defs_ptr' in seen
+                    and nonempty(st[3][1] if st[3][0] == 'block' else [st[3]]) == [('expr', ('assign', '=', ('un', '*', ('post', '++', ('id', 'specs'))), ('cast', 'c', 'uintptr_t', ('member', ('id', st[1]), 'pf', False))))]):
+                order.append('defs'); continue
+            if st == ('expr', ('assign', '=', ('un', '*', ('post', '++', ('id', 'specs'))), ('cast', 'c', 'uintptr_t', ('member', ('id', mv), 'ambiguous', False)))):
+                order.append('amb'); continue
+            if st == ('expr', ('assign', '=', ('un', '*', ('post', '++', ('id', 'specs'))), ('cast', 'c', 'uintptr_t', ('member', ('id', mv), 'not_implemented', False)))):
+                order.append('ni'); continue
+            if st in (('expr', ('un', '++', ('id', 'method_index'))), ('expr', ('post', '++', ('id', 'method_index')))):
+                continue                                                   # a counter nobody reads in this loop
+            raise mc.Unsupported('the loop that fills methods[] / method_defs[]: statement not in the subset: ' + mc.show(st)[:300])
+        need = {'methods', 'count', 'copy', 'advance', 'alloca', 'defs_ptr'}
+        if not need <= seen:
+            raise mc.Unsupported('the loop that fills methods[] / method_defs[] no longer does: ' + ', '.join(sorted(need - seen)))
+        if order != ['defs', 'amb', 'ni']:
+            raise mc.Unsupported('method_defs[mi] is no longer <the definitions, ambiguous, not_implemented> in that order: ' + repr(order))
 
         # ---- the dispatch-table loop
         dloops = [(i, s) for i, s in loops if i > i_dt]
@@ -325,15 +350,40 @@ def main():
         tb2 = nonempty(tail[0][3][1])
         pub = ('expr', ('call', ('id', 'Policy::publish_vptrs'),
                         [('call', ('member', ('id', 'records'), 'begin', False), []), ('call', ('member', ('id', 'records'), 'end', False), [])]))
-        same = ('bin', '==', ('member', ('member', ('id', 'r'), 'info', False), 'type', True), ('member', ('id', 'cls'), 'type', False))
-        rf = [t for t in tb2 if t[0] == 'rangefor' and t[2] == ('id', 'Policy::classes') and t[1] == 'cls']
-        ok = (len(tb2) == 3 and tb2[0][0] == 'decl' and tb2[0][2] == [('records', None)] and len(rf) == 1 and tb2[2] == pub)
+        rbeg, rend = ('call', ('member', ('id', 'records'), 'begin', False), []), ('call', ('member', ('id', 'records'), 'end', False), [])
+
+        def same_type_pred(lam, cv):
+            """[&cv](const record& r) { return r.info->type == cv.type; }"""
+            if lam[0] != 'lambda' or len(lam[2]) != 1:
+                return False
+            r = lam[2][0]
+            same = ('bin', '==', ('member', ('member', ('id', r), 'info', False), 'type', True), ('member', ('id', cv), 'type', False))
+            return lam[3] in (('block', [('return', same)]), ('block', [('return', (same[0], same[1], same[3], same[2]))]))
+
+        # a local helper `already(cls)`: any_of over the records with that predicate
+        helpers = {}
+        body3 = []
+        for t in tb2:
+            if (t[0] == 'decl' and len(t[2]) == 1 and t[2][0][1] is not None and t[2][0][1][0] == 'lambda' and len(t[2][0][1][2]) == 1):
+                lam = t[2][0][1]
+                cv = lam[2][0]
+                inner = nonempty(lam[3][1])
+                if (len(inner) == 1 and inner[0][0] == 'return' and inner[0][1][0] == 'call' and inner[0][1][1] == ('id', 'std::any_of')
+                        and inner[0][1][2][:2] == [rbeg, rend] and len(inner[0][1][2]) == 3 and same_type_pred(inner[0][1][2][2], cv)):
+                    helpers[t[2][0][0]] = True
+                    continue
+            body3.append(t)
+        rf = [t for t in body3 if t[0] == 'rangefor' and t[2] == ('id', 'Policy::classes') and isinstance(t[1], str)]
+        ok = (len(body3) == 3 and body3[0][0] == 'decl' and body3[0][2] == [('records', None)] and len(rf) == 1 and body3[2] == pub)
         if ok:
+            cv = rf[0][1]
             body2 = nonempty(rf[0][3][1])
-            ok = (len(body2) == 1 and body2[0][0] == 'if' and body2[0][4] is None and body2[0][2][0] == 'call' and body2[0][2][1] == ('id', 'std::none_of')
-                  and body2[0][2][2][:2] == [('call', ('member', ('id', 'records'), 'begin', False), []), ('call', ('member', ('id', 'records'), 'end', False), [])]
-                  and body2[0][2][2][2][0] == 'lambda' and body2[0][2][2][2][3] in (('block', [('return', same)]), ('block', [('return', (same[0], same[1], same[3], same[2]))]))
-                  and nonempty(body2[0][3][1]) == [('expr', ('call', ('member', ('id', 'records'), 'push_back', False), [('initlist', [('un', '&', ('id', 'cls'))])]))])
+            ok = len(body2) == 1 and body2[0][0] == 'if' and body2[0][4] is None
+            if ok:
+                c = body2[0][2]
+                fresh = ((c[0] == 'call' and c[1] == ('id', 'std::none_of') and c[2][:2] == [rbeg, rend] and len(c[2]) == 3 and same_type_pred(c[2][2], cv))
+                         or (c[0] == 'un' and c[1] == '!' and c[2][0] == 'call' and c[2][1][0] == 'id' and c[2][1][1] in helpers and c[2][2] == [('id', cv)]))
+                ok = fresh and nonempty(body2[0][3][1]) == [('expr', ('call', ('member', ('id', 'records'), 'push_back', False), [('initlist', [('un', '&', ('id', cv))])]))]
         if not ok:
             raise mc.Unsupported('the tail no longer publishes exactly one record per distinct class type through Policy::publish_vptrs(records.begin(), records.end())')
     except mc.Unsupported as e:
